@@ -78,6 +78,10 @@ class Ctx:
         return (self.assumptions + [c for i, c in enumerate(self.side) if i not in self.strong] +
                 [e if t else z3.Not(e) for e, t in self.decisions])
 
+    def pc_base(self):
+        """Declared assumptions and weak side constraints only (no branch decisions): an even weaker set."""
+        return self.assumptions + [c for i, c in enumerate(self.side) if i not in self.strong]
+
     def assume(self, *es):
         for e in es:
             if isinstance(e, SymBool):
@@ -484,9 +488,10 @@ def var(name):
 
 # --------------------------------------------------------------------------
 class Path:
-    __slots__ = ('pc', 'result', 'exc', 'notes', 'decisions', 'cut', 'pc_weak')
+    __slots__ = ('pc', 'result', 'exc', 'notes', 'decisions', 'cut', 'pc_weak', 'pc_base')
 
-    def __init__(self, pc, result, exc=None, notes=(), decisions=(), cut=False, pc_weak=None):
+    def __init__(self, pc, result, exc=None, notes=(), decisions=(), cut=False, pc_weak=None, pc_base=None):
+        self.pc_base = pc_base
         self.pc = pc
         self.pc_weak = pc_weak
         self.result = result
@@ -520,7 +525,8 @@ def explore(fn, assumptions=(), max_paths=256, max_depth=64, catch=(Exception, S
             CTX = c
             try:
                 res = fn()
-                out.append(Path(c.pc(), res, None, c.notes, c.decisions, pc_weak=(c.pc_weak() if c.strong else None)))
+                out.append(Path(c.pc(), res, None, c.notes, c.decisions, pc_weak=(c.pc_weak() if c.strong else None),
+                                pc_base=(c.pc_base() if len(c.decisions) >= 3 else None)))
             except PathAbort:
                 info['aborted'] += 1
             except BudgetExceeded:
